@@ -13,6 +13,10 @@ func cpsToString(v any) string {
 	var b strings.Builder
 	for _, c := range seq(v) {
 		n := int(num(c))
+		if n == 255255 {
+			b.WriteByte(0xff) // the specification's stand-in for a byte that is not UTF-8
+			continue
+		}
 		if n < 128 {
 			b.WriteByte(byte(n)) // NUL and the other ASCII code points as single bytes
 		} else {
@@ -124,7 +128,24 @@ func checkC16(c Node) Verdict {
 	if gotShape != wantShape {
 		return fail("shape", desc, sig, "the sanitized statement %q has another shape than the template: %s vs %s", got, gotShape, wantShape)
 	}
-	// evaluation
+	// evaluation - after the statement of the "whitespace twin" of the argument (blanks and line feeds swapped): two
+	// statements that differ only in white space inside their literals are two statements
+	if strings.ContainsAny(arg1, " \n") {
+		twinArgs := append([]any{}, args...)
+		twinArgs[0] = strings.Map(func(r rune) rune {
+			switch r {
+			case ' ':
+				return '\n'
+			case '\n':
+				return ' '
+			}
+			return r
+		}, arg1)
+		if twin, terr, tpan := sanitizeSafe(tpl, twinArgs); terr == nil && tpan == nil {
+			Run(DeepCopy(any(docC16)).(map[string]any), twin, false)
+			v.Execs++
+		}
+	}
 	doc := DeepCopy(any(docC16)).(map[string]any)
 	out := Run(doc, got, false)
 	v.Execs++
@@ -167,7 +188,12 @@ func checkC16(c Node) Verdict {
 		if len(out.Rows) != 1 || !Equal(out.Rows[0], map[string]any{"dir\\": float64(7), "lit": "` $1", "v": arg1}) {
 			return fail("echo", desc, sig, "%q returns %s", got, Canon(any(out.Rows)))
 		}
-	case 7, 8:
+	case 12:
+		want := []any{}
+		if len(out.Rows) != 1 || !Equal(out.Rows[0], map[string]any{"w": float64(8), "a": arg1}) {
+			return fail("echo", desc, sig, "%q returns %s, expected %s", got, Canon(any(out.Rows)), Canon(any(append(want, map[string]any{"w": float64(8), "a": arg1}))))
+		}
+	case 7, 8, 10, 11:
 		if len(out.Rows) != 1 || !Equal(out.Rows[0], map[string]any{"a": arg1}) {
 			return fail("echo", desc, sig, "%q returns %s", got, Canon(any(out.Rows)))
 		}
